@@ -861,6 +861,96 @@ pub fn build_expansion(glyphs: &[u16], k: u16, lookups: u8, variant: u64) -> Vec
     t
 }
 
+/// GSUB/GPOS whose ScriptList and FeatureList records alias one sub-table each (see
+/// `Surgery::InstallAliasedLists`). The LookupList comes first, then the smaller of the two lists,
+/// then the larger one, so that all three header offsets fit 16 bits.
+pub fn build_aliased_lists(gpos: bool, glyph: u16, scripts: u16, langsys: u16, features: u16, frecs: u16, lookups: u16) -> Option<Vec<u8>> {
+    let p16 = |v: &mut Vec<u8>, x: u16| v.extend_from_slice(&x.to_be_bytes());
+    let (s, l, f, n, k) = (usize::from(scripts.max(1)), usize::from(langsys), usize::from(features), usize::from(frecs.max(1)), usize::from(lookups));
+    // ScriptList
+    let mut sl = Vec::new();
+    p16(&mut sl, s as u16);
+    let script_off = 2 + 6 * s;
+    if script_off > 0xFFFF || 2 + 6 * n > 0xFFFF {
+        return None;
+    }
+    for i in 0..s {
+        match i {
+            0 => sl.extend_from_slice(b"DFLT"),
+            1 => sl.extend_from_slice(b"latn"),
+            _ => {
+                let j = i - 2;
+                sl.extend_from_slice(&[b'x', b'a' + (j / 676 % 26) as u8, b'a' + (j / 26 % 26) as u8, b'a' + (j % 26) as u8]);
+            }
+        }
+        p16(&mut sl, script_off as u16);
+    }
+    let ls_off = 4 + 6 * l;
+    p16(&mut sl, ls_off as u16); // defaultLangSys: the shared one
+    p16(&mut sl, l as u16);
+    for i in 0..l {
+        sl.extend_from_slice(&[b'A' + (i / 26 % 26) as u8, b'A' + (i % 26) as u8, b'A', b' ']);
+        p16(&mut sl, ls_off as u16);
+    }
+    p16(&mut sl, 0);
+    p16(&mut sl, 0xFFFF);
+    p16(&mut sl, f as u16);
+    for i in 0..f {
+        p16(&mut sl, (i % n) as u16);
+    }
+    // FeatureList
+    let mut fl = Vec::new();
+    p16(&mut fl, n as u16);
+    for i in 0..n {
+        match i {
+            0 => fl.extend_from_slice(b"ccmp"),
+            1 => fl.extend_from_slice(if gpos { b"kern" } else { b"liga" }),
+            _ => {
+                let j = i - 2;
+                fl.extend_from_slice(&[b'y', b'a' + (j / 676 % 26) as u8, b'a' + (j / 26 % 26) as u8, b'a' + (j % 26) as u8]);
+            }
+        }
+        p16(&mut fl, (2 + 6 * n) as u16);
+    }
+    p16(&mut fl, 0);
+    p16(&mut fl, k as u16);
+    for _ in 0..k {
+        p16(&mut fl, 0);
+    }
+    // LookupList: one lookup, one subtable (SingleSubst format 1 delta 0 / SinglePos format 1, no values)
+    let mut ll = Vec::new();
+    p16(&mut ll, 1);
+    p16(&mut ll, 4);
+    p16(&mut ll, 1);
+    p16(&mut ll, 0);
+    p16(&mut ll, 1);
+    p16(&mut ll, 8);
+    p16(&mut ll, 1);
+    p16(&mut ll, 6);
+    p16(&mut ll, 0); // deltaGlyphID 0 / valueFormat 0
+    p16(&mut ll, 1);
+    p16(&mut ll, 1);
+    p16(&mut ll, glyph);
+    let mut t = Vec::new();
+    p16(&mut t, 1);
+    p16(&mut t, 0);
+    let lookup_at = 10;
+    let (first_is_scripts, first, second) = if sl.len() <= fl.len() { (true, &sl, &fl) } else { (false, &fl, &sl) };
+    let first_at = lookup_at + ll.len();
+    let second_at = first_at + first.len();
+    if second_at > 0xFFFF {
+        return None;
+    }
+    let (script_at, feature_at) = if first_is_scripts { (first_at, second_at) } else { (second_at, first_at) };
+    p16(&mut t, script_at as u16);
+    p16(&mut t, feature_at as u16);
+    p16(&mut t, lookup_at as u16);
+    t.extend_from_slice(&ll);
+    t.extend_from_slice(first);
+    t.extend_from_slice(second);
+    Some(t)
+}
+
 /// GSUB: DFLT/latn -> `ccmp`, `liga` -> lookup 0; lookups 0..depth are contextual (format 3) on
 /// `glyph`, each with `records` lookup records naming the next lookup; lookup `depth` is a
 /// SingleSubst (delta 0 or +1 -1 alternating, by variant).
@@ -1907,6 +1997,19 @@ pub fn apply(disk: &mut Disk, s: &Surgery) -> Result<(), String> {
             // (as for InstallExpansion: the doubling variant can take the run to the limit)
             if *variant / 2 % 4 == 2 && u64::from(records).saturating_pow(u32::from(depth)) > 64 {
                 disk.tables.remove(&tag_from_str("GPOS"));
+                disk.tables.remove(&tag_from_str("kern"));
+            }
+            Ok(())
+        }
+        Surgery::InstallAliasedLists { table, glyph, scripts, langsys, features, frecs, lookups } => {
+            let n = num_glyphs(disk)?;
+            if *glyph >= n || (table != "GSUB" && table != "GPOS") {
+                return Err("surgery: aliased lists need a glyph of the font and GSUB or GPOS".into());
+            }
+            let t = build_aliased_lists(table == "GPOS", *glyph, *scripts, (*langsys).min(64), *features, *frecs, *lookups)
+                .ok_or("surgery: aliased lists do not fit 16-bit offsets")?;
+            disk.tables.insert(tag_from_str(table), Rc::new(t));
+            if table == "GPOS" {
                 disk.tables.remove(&tag_from_str("kern"));
             }
             Ok(())
